@@ -35,6 +35,16 @@ CLAIMED = {
          "The reachable graph of the bounded PAR2 and PAR1 directory state machines is explored to closure by TLC (every history over damage, restore, delete/restore volume, Verify, Repair, Repair with double-check ends in one of its states) with the action properties success_is_fixpoint, failure_keeps_or_restores, verify_pure; because no state survives between gopar calls except the directory, replaying every Verify/Repair edge from its materialised source state on the real code covers every finite history: each successful real Repair is followed by a real Verify (must be clean) and a second real Repair whose write calls are logged through the hook (must write nothing); failed repairs must leave every file as it was or restored.",
          "Closed damage menu (bounded variants per file); PAR2 and PAR1; liveness (convergence as volumes arrive) follows from fixpoint + within-capacity clauses rather than being checked as a temporal formula.",
          "DESIGN.md section 5 C14"),
+ "C12": ("model_checking",
+         "Parallel.tla worker-pool model: TLC explores all interleavings (Static, RaceFree, Result, OverwriteFirst, <>joined) and the partition for every (len<=512,g<=40); every interleaving of the small graphs forced on the real goroutines through a gate hook with bytes compared after each step; recorded step sequences validated as behaviours of the spec; race-detector grid",
+         "TLC exhausts every interleaving of the worker-pool specification (one step per kernel call, barrier) for several shapes and proves race freedom of the model, completeness of the result at the barrier and termination under fairness, and the static partition properties for every even length up to 512 and every goroutine count up to 40. The spec is bound to rsec16.applyMatrixParallelData three ways: every maximal path (all 34,650 interleavings of 3 workers x 4 calls, all of the smaller shapes, seeded random maximal paths of the larger ones) is forced on the real goroutines with a blocking hook before each kernel call, the output bytes compared with an independent reference after every step, and the recorded call sequence validated by TLC as a behaviour of the spec; the partition ranges the real code uses on a (len, g) grid are validated against the spec; the ungated grid runs under the Go race detector with several GOMAXPROCS; par2.Create/Repair are compared byte-for-byte across goroutine options.",
+         "A kernel call is treated as atomic (justified by disjoint ranges and checked by the race detector on the real code); schedules beyond the small shapes are sampled.",
+         "DESIGN.md section 5 C12"),
+ "C16": ("model_checking",
+         "ScanP.tla/Par2Scan.tla: TLC enumerates every small original x every insertion/deletion and checks Survivors<=Found<=Occurring; each case executed on real par2.Verify/Repair with exactly as many recovery blocks as non-surviving slices; random-content grid over slice sizes/offsets judged with observer truth",
+         "TLC checks the scan specification (truth layer Survivors/Occurring versus the transcribed greedy scan) on every original file over {0,1} of the configured lengths and every insertion and deletion (every position, lengths 1..6), then each of those cases is executed on the real par2.Verify - usable count between TLC's own bounds and equal to the model's greedy count - and on the real par2.Repair with exactly as many recovery blocks as slices that do not survive; a second driver covers slice sizes 4..2000, every residue of the file length modulo the slice size, edit positions across the file, edit lengths up to S+3 and content moved to another protected name on random content.",
+         "Checksums idealised as injective; on random content Survivors equals the slices the edit does not overlap.",
+         "DESIGN.md section 5 C16"),
 }
 
 NOT_YET = "check under construction in this round; not claimed until it runs green on the unchanged tree"
